@@ -6,7 +6,10 @@ import (
 	"bytes"
 	"encoding/json"
 	"fmt"
+	"os"
+	"runtime/debug"
 	"strings"
+	"time"
 
 	"github.com/libsv/go-bt/v2"
 	"github.com/libsv/go-bt/v2/bscript"
@@ -35,28 +38,21 @@ var queryName = map[string]string{"T": "ScriptType", ";k": "IsP2PKH", ";p": "IsP
 
 type obs struct {
 	text      string
+	fields    map[string]string // the answer of each query (by field prefix) for a private copy of the script
 	typ       string
 	typOK     bool
 	decodeErr bool
 	inscribed bool
 	panics    []string
+	impure    []viol // findings of purity (purity.go), when it was run
 }
 
-// observe runs every inspection query on its own copy of the script under recover().
-func observe(s []byte) *obs { return observeOpt(s, true) }
-
-// observeOpt: without withJSON the two node-JSON marshalling runs are skipped (used for the
+// observeOpt runs every inspection query on its own copy of the script under recover(); without withJSON the two node-JSON marshalling runs are skipped (used for the
 // 16.8 M three-byte scripts; they are compositions of ToASM, Addresses and ScriptType).
 func observeOpt(s []byte, withJSON bool) *obs {
-	o := &obs{}
+	o := &obs{fields: map[string]string{}}
 	var sb strings.Builder
 	scr := func() *bscript.Script { return bscript.NewFromBytes(append([]byte{}, s...)) }
-	vb := func(b bool) string {
-		if b {
-			return "+1"
-		}
-		return "+0"
-	}
 	// a panic is an observation: the field becomes <prefix>!
 	fix := func(prefix string, f func() string) {
 		var out string
@@ -64,54 +60,16 @@ func observeOpt(s []byte, withJSON bool) *obs {
 			o.panics = append(o.panics, queryName[prefix]+": "+msg)
 			out = prefix + "!"
 		}
+		o.fields[prefix] = out
 		sb.WriteString(out)
 	}
-	fix("T", func() string { t := scr().ScriptType(); o.typ, o.typOK = t, true; return "T+" + t })
-	fix(";k", func() string { return ";k" + vb(scr().IsP2PKH()) })
-	fix(";p", func() string { return ";p" + vb(scr().IsP2PK()) })
-	fix(";s", func() string { return ";s" + vb(scr().IsP2SH()) })
-	fix(";d", func() string { return ";d" + vb(scr().IsData()) })
-	fix(";m", func() string { return ";m" + vb(scr().IsMultiSigOut()) })
-	fix(";i", func() string { return ";i" + vb(scr().IsP2PKHInscription()) })
-	fix(";H", func() string {
-		h, err := scr().PublicKeyHash()
-		if err != nil {
-			return ";H-"
-		}
-		return ";H+" + sg.Habbr(h)
-	})
-	fix(";A", func() string {
-		sc := scr()
-		as, err := sc.Addresses()
-		if err != nil {
-			return ";A-"
-		}
-		var hs []string
-		for _, a := range as {
-			// project the address onto the hash it encodes
-			ad, e := bscript.NewAddressFromString(a)
-			if e != nil {
-				hs = append(hs, "bad-address")
-				continue
-			}
-			hs = append(hs, sg.Sabbr(ad.PublicKeyHash))
-		}
-		return ";A+" + strings.Join(hs, ",")
-	})
-	fix(";I", func() string {
-		ia, err := scr().ParseInscription()
-		if err != nil {
-			return ";I-"
-		}
-		return ";I+" + sg.Habbr([]byte(*ia.LockingScriptPrefix)) + "," + sg.Habbr(ia.Data) + "," + sg.Habbr([]byte(ia.ContentType))
-	})
-	fix(";a", func() string {
-		a, err := scr().ToASM()
-		if err != nil {
-			return ";a-"
-		}
-		return ";a+" + sg.Sabbr(a)
-	})
+	for _, q := range queries {
+		q := q
+		fix(q.prefix, func() string { return q.run(scr()) })
+	}
+	if t := o.fields["T"]; strings.HasPrefix(t, "T+") {
+		o.typ, o.typOK = t[2:], true
+	}
 	fix(";N", func() string {
 		if !withJSON {
 			return ";N"
@@ -126,6 +84,7 @@ func observeOpt(s []byte, withJSON bool) *obs {
 			Vout []struct {
 				ScriptPubKey struct {
 					Asm     string `json:"asm"`
+					Hex     string `json:"hex"`
 					ReqSigs int    `json:"reqSigs"`
 					Type    string `json:"type"`
 				} `json:"scriptPubKey"`
@@ -135,7 +94,7 @@ func observeOpt(s []byte, withJSON bool) *obs {
 			return ";N?"
 		}
 		v := doc.Vout[0].ScriptPubKey
-		return fmt.Sprintf(";N+%s,%d,%s", sg.Sabbr(v.Asm), v.ReqSigs, v.Type)
+		return fmt.Sprintf(";N+%s,%d,%s,%s", sg.Sabbr(v.Asm), v.ReqSigs, v.Type, hexOf(v.Hex))
 	})
 	// further entry points that must not panic either (not compared with the model)
 	for name, f := range map[string]func(){
@@ -196,9 +155,40 @@ func predicates(s []byte, o *obs, expect string) {
 	}
 }
 
+// scriptCase queues one case; drain observes the queued scripts on all cores (observeAll: every query on private
+// copies, then the read-only / ask-twice statements of purity.go with the transaction renderings) and judges and
+// writes them out in the order they were queued — the output does not depend on the number of cores.
+type pending struct {
+	kind   string
+	s      []byte
+	expect string
+	toCoq  bool
+}
+
+var queue []pending
+
 func scriptCase(kind string, s []byte, expect string, toCoq bool) {
-	o := observe(s)
+	queue = append(queue, pending{kind, append([]byte{}, s...), expect, toCoq})
+	if len(queue) >= 2048 {
+		drain()
+	}
+}
+
+func drain() {
+	ss := make([][]byte, len(queue))
+	for i, q := range queue {
+		ss[i] = q.s
+	}
+	for i, o := range observeAll(ss, true, true, true) {
+		q := queue[i]
+		emitCase(q.kind, q.s, q.expect, q.toCoq, o)
+	}
+	queue = queue[:0]
+}
+
+func emitCase(kind string, s []byte, expect string, toCoq bool, o *obs) {
 	predicates(s, o, expect)
+	impurities(s, o)
 	t := o.typ
 	if !o.typOK {
 		t = "panic"
@@ -330,7 +320,22 @@ func templates(r *common.Rand) []template {
 	return ts
 }
 
+// phase: with VERIF_TIMING set, the wall time of each family on stderr.
+var phaseT = time.Now()
+
+func phase(name string) {
+	drain()
+	if os.Getenv("VERIF_TIMING") != "" {
+		fmt.Fprintf(os.Stderr, "%-28s %6.2fs\n", name, time.Since(phaseT).Seconds())
+	}
+	phaseT = time.Now()
+}
+
 func main() {
+	// the live heap is a few MB and every observation allocates: collect when a gigabyte of garbage has piled up
+	// rather than every 4 MB (a third of the CPU time otherwise)
+	debug.SetGCPercent(-1)
+	debug.SetMemoryLimit(1 << 30)
 	c = common.Parse("C14")
 	c.SetHeader(header)
 	c.ShardBytes = 400000
@@ -340,35 +345,57 @@ func main() {
 	full := c.Thorough()
 
 	// ---- (1) every byte string of length <= 2
-	sg.Tiny(2, func(s []byte, ln int, v uint64) {
-		o := observe(s)
-		predicates(s, o, "")
-		toCoq := c.Mode == "gen" && (full || ln <= 1 || v%8 == c.Seed%8)
-		coq := ""
-		if toCoq {
-			coq = fmt.Sprintf("CTiny %d %d %d", ln, v, sg.Digest(o.text))
+	{
+		// observed on all cores (observeAll), judged and written out in enumeration order; the read-only / ask-twice
+		// statements (purity.go) on every one of them, without the transaction renderings
+		type tiny struct {
+			ln int
+			v  uint64
 		}
-		t := o.typ
-		if !o.typOK {
-			t = "panic"
+		var ss [][]byte
+		var ids []tiny
+		sg.Tiny(2, func(s []byte, ln int, v uint64) {
+			ss = append(ss, append([]byte{}, s...))
+			ids = append(ids, tiny{ln, v})
+		})
+		for i, o := range observeAll(ss, true, true, false) {
+			s, ln, v := ss[i], ids[i].ln, ids[i].v
+			predicates(s, o, "")
+			impurities(s, o)
+			toCoq := c.Mode == "gen" && (full || ln <= 1 || v%8 == c.Seed%8)
+			coq := ""
+			if toCoq {
+				coq = fmt.Sprintf("CTiny %d %d %d", ln, v, sg.Digest(o.text))
+			}
+			t := o.typ
+			if !o.typOK {
+				t = "panic"
+			}
+			c.Stats.Distribution["tiny/"+t]++
+			c.Case(coq, map[string]interface{}{"kind": "tiny", "script": common.Hex(s), "obs": o.text}, "s"+common.Hex(s), ln > 0)
 		}
-		c.Stats.Distribution["tiny/"+t]++
-		c.Case(coq, map[string]interface{}{"kind": "tiny", "script": common.Hex(s), "obs": o.text}, "s"+common.Hex(s), ln > 0)
-	})
+	}
+	phase("tiny")
 	if full || search {
 		n3 := 0
-		s := make([]byte, 3)
-		for v := 0; v < 1<<24; v++ {
-			s[0], s[1], s[2] = byte(v), byte(v>>8), byte(v>>16)
-			if search && v%4 != int(c.Seed%4) {
+		for hi := 0; hi < 256; hi++ {
+			if search && hi%4 != int(c.Seed%4) {
 				continue
 			}
-			predicates(s, observeOpt(s, false), "")
-			n3++
+			batch := make([][]byte, 0, 1<<16)
+			for v := 0; v < 1<<16; v++ {
+				batch = append(batch, []byte{byte(v), byte(v >> 8), byte(hi)})
+			}
+			for i, o := range observeAll(batch, false, true, false) {
+				predicates(batch[i], o, "")
+				impurities(batch[i], o)
+				n3++
+			}
 		}
 		c.Stats.Extra["three_byte_scripts_go_side_only"] = n3
 	}
 
+	phase("three-byte")
 	// ---- (2) the templates, every single-byte mutation, push replacements, parts removed
 	c.PerShard = 250
 	ts := templates(r)
@@ -382,6 +409,11 @@ func main() {
 			if len(base) > 160 && !full && pos >= 40 && pos < len(base)-40 {
 				continue // big templates (15/16-key multisig): quick tier mutates the first and last 40 bytes
 			}
+			// the values the model side does not see are observed on all cores and judged in order; the read-only /
+			// ask-twice statements on all of them (with the transaction renderings on the model-side ones)
+			// (the transaction renderings are compositions of ToASM, Addresses and ScriptType on the same bytes: in quick
+			// the values of the seed's parity are rendered besides the model-side ones, in thorough all)
+			var goSide, goSideJSON [][]byte
 			for v := 0; v < 256; v++ {
 				if byte(v) == base[pos] {
 					continue
@@ -392,11 +424,22 @@ func main() {
 				nMut++
 				if sel {
 					scriptCase("mutate-byte/"+t.name, m, "", true)
+				} else if search || v%2 == int(c.Seed%2) {
+					goSideJSON = append(goSideJSON, m)
 				} else {
-					predicates(m, observe(m), "")
+					goSide = append(goSide, m)
 				}
 			}
+			for i, o := range observeAll(goSideJSON, true, true, false) {
+				predicates(goSideJSON[i], o, "")
+				impurities(goSideJSON[i], o)
+			}
+			for i, o := range observeAll(goSide, false, true, false) {
+				predicates(goSide[i], o, "")
+				impurities(goSide[i], o)
+			}
 		}
+		phase("mutate-byte/" + t.name)
 		// each push replaced by an empty / truncated push; each token removed; duplicated; script cut
 		for i := range t.tokens {
 			repl := func(kind string, tok []byte) {
@@ -460,9 +503,11 @@ func main() {
 		for k := 0; k < len(base); k++ {
 			scriptCase("truncate/"+t.name, base[:k], "", full || k%3 == int(c.Seed%3))
 		}
+		phase("replace/truncate/" + t.name)
 		scriptCase("append-byte/"+t.name, append(append([]byte{}, base...), byte(r.U64())), "", true)
 	}
 	c.Stats.Extra["single_byte_mutations_go_side"] = nMut
+	phase("template-rest(last)")
 
 	// ---- (2b) large templates (Go side only): inscriptions whose content needs each of the long push forms, followed by
 	// an OP_RETURN suffix whose data needs another one, in every order of sizes — what one push's header leaves behind
@@ -483,6 +528,7 @@ func main() {
 		}
 	}
 
+	phase("large-template")
 	// ---- (3) inputs of earlier defects and hand-made near-templates
 	for _, h := range []string{
 		"01024c00", "4c00515151ae", "006a015101ae", "6a015101ae", "514c00ae", "51ae", "5151ae", "00ae", "0000ae", "4c004c00ae", "514c0051ae",
@@ -516,6 +562,7 @@ func main() {
 		}
 		scriptCase("short-parts", s, "", true)
 	}
+	phase("near/generated/random/short-parts")
 	// fresh templates must classify
 	nT := 30
 	if full || search {
@@ -526,8 +573,52 @@ func main() {
 			scriptCase("fresh-template/"+t.name, t.bytes(), t.typ, i < 3)
 		}
 	}
+
+	phase("fresh-template")
+	// ---- (5) short pushes: scripts of one to three pushes of 0..5 bytes (the lengths around the four-byte boundary at
+	// which a data script's pushes are rendered as numbers) behind OP_RETURN, OP_FALSE OP_RETURN and behind a non-data
+	// prefix, each push in its shortest form, and again with forms drawn per push; a short push in front of more script
+	// and as the last thing of the script
+	{
+		var rec func(prefix []byte, k int, forms bool)
+		emit := func(s []byte) { scriptCase("short-pushes", s, "", true) }
+		rec = func(cur []byte, k int, forms bool) {
+			if k == 0 {
+				return
+			}
+			for ln := 0; ln <= 5; ln++ {
+				d := r.Bytes(ln)
+				for i := range d {
+					if r.Chance(25) {
+						d[i] = []byte{0x00, 0x80, 0xff, 0x7f}[r.Intn(4)]
+					}
+				}
+				form := sg.FormMinimal
+				if forms {
+					form = []int{sg.FormMinimal, sg.FormPD1, sg.FormPD2, sg.FormPD4}[r.Intn(4)]
+				}
+				next := append(append([]byte{}, cur...), sg.Push(form, d)...)
+				emit(next)
+				rec(next, k-1, forms)
+			}
+		}
+		depth := 2
+		if full || search {
+			depth = 3
+		}
+		for _, prefix := range [][]byte{{0x6a}, {0x00, 0x6a}, {0x51}, {0x00}} {
+			rec(prefix, depth, false)
+			rec(prefix, depth, true)
+			// three pushes in quick: a seed-chosen first length, every pair behind it
+			if depth == 2 {
+				first := sg.Push(sg.FormMinimal, r.Bytes(int(c.Seed+uint64(len(prefix)))%6))
+				rec(append(append([]byte{}, prefix...), first...), 2, false)
+			}
+		}
+	}
+	phase("short-pushes")
 	_ = bytes.Equal
 
-	c.Stats.Rule = "(1) every byte string of length <= 2 through every inspection query under recover() (ScriptType, IsP2PKH/IsP2PK/IsP2SH/IsData/IsMultiSigOut/IsP2PKHInscription, PublicKeyHash, Addresses, ParseInscription, ToASM, json.Marshal(tx.NodeJSON()) of a tx carrying the script; <= 3 bytes in thorough, Go side only); model side all of length <= 1 plus the seed-chosen residue class mod 8 in quick, all in thorough; (2) ten templates (P2PKH, P2PK 33/65, 1-of-2 and 2-of-3 multisig, OP_RETURN and OP_FALSE OP_RETURN data, three P2PKH inscriptions built by Tx.Inscribe incl. enriched and empty fields): every byte position x every other value on the Go side (model side: xor 01, xor ff, 00, 4c, 6a in quick, all in thorough), each push replaced by 4c00 / 4d0000 / 4e00000000 / 00 / itself minus the last byte / its header / a non-minimal form / a one-byte push, each token removed, each opcode replaced by 4c00, every truncation, one byte appended; (3) inputs of earlier defects and near-templates; (4) grammar-generated scripts, random bytes, scripts of zero-length pushes and short parts, fresh templates. distinct = distinct script bytes; non-trivial = non-empty script"
+	c.Stats.Rule = "(1) every byte string of length <= 2 through every inspection query under recover() (ScriptType, IsP2PKH/IsP2PK/IsP2SH/IsData/IsMultiSigOut/IsP2PKHInscription, PublicKeyHash, Addresses, ParseInscription, ToASM, json.Marshal(tx.NodeJSON()) of a tx carrying the script; <= 3 bytes in thorough, Go side only); model side all of length <= 1 plus the seed-chosen residue class mod 8 in quick, all in thorough; (2) ten templates (P2PKH, P2PK 33/65, 1-of-2 and 2-of-3 multisig, OP_RETURN and OP_FALSE OP_RETURN data, three P2PKH inscriptions built by Tx.Inscribe incl. enriched and empty fields): every byte position x every other value on the Go side (model side: xor 01, xor ff, 00, 4c, 6a in quick, all in thorough), each push replaced by 4c00 / 4d0000 / 4e00000000 / 00 / itself minus the last byte / its header / a non-minimal form / a one-byte push, each token removed, each opcode replaced by 4c00, every truncation, one byte appended; (3) inputs of earlier defects and near-templates; (4) grammar-generated scripts, random bytes, scripts of zero-length pushes and short parts, fresh templates; (5) data and non-data scripts of one to three pushes of 0..5 bytes in shortest and drawn forms. On every script, besides the queries on private copies: every query twice on ONE Script value that is a window of a larger buffer (guard | script | spare capacity | sibling script | guard) — the buffer, the Script value and the answers must be what they were (purity.go); for the model-side cases also the node and standard JSON renderings of a transaction whose two scripts are windows of one buffer (hex = the script, asm = ToASM, txid and bytes unchanged, same rendering twice). distinct = distinct script bytes; non-trivial = non-empty script"
 	c.Finish()
 }
